@@ -1297,7 +1297,42 @@ def triple_rule(ctx, syn, rid="C01.TRIPLE"):
             ctx.report(r, "remove_second", "remove_second(1, 2) leaves (1,2)=%s (2,1)=%s (1,1)=%s (2,2)=%s; expected the row (1,2) gone and the others untouched: the metadata index row of another key / data item is wiped (or the intended one survives), so a later removal does not cascade to the annotations on it" % got, fns[("TripleRelationMap", "remove_second")].file, fns[("TripleRelationMap", "remove_second")].line)
     except (Unknown, Panic) as e:
         ctx.report(r, "unevaluated", "TripleRelationMap could not be evaluated (%s): that each operation addresses the row it names is not established" % e, fns[("TripleRelationMap", "insert")].file, fns[("TripleRelationMap", "insert")].line)
-    ctx.floor(r, n, 3, "TripleRelationMap operations evaluated")
+    # batch insertion (Extend): what inserted() uses for the entries of a complex target, whose members may lie in different
+    # resources / datasets - every triple goes to the row it names, also one whose first-level row does not exist yet
+    ext = [f for f in syn.fns if f.name == "extend" and f.file == "src/store.rs" and (f.self_ty or "").startswith("TripleRelationMap<") and "Extend" in (f.trait or "") and f.body is not None]
+    if len(ext) != 1:
+        ctx.anchor_missing(r, "Extend<(A, B, C)> for TripleRelationMap")
+    else:
+        ctx.functions_analysed.add(ext[0].qual)
+        hooks2 = dict(hooks)
+        class IterList(list):
+            """a consuming iterator over a list: next() takes the first remaining item, a `for` runs over what is left"""
+        hooks2["into_iter"] = lambda ev, recv, args, node, env: (recv if isinstance(recv, IterList) else IterList(recv)) if isinstance(recv, list) else NotImplemented
+        hooks2["next"] = lambda ev, recv, args, node, env: ((some(recv.pop(0)) if recv else None) if isinstance(recv, IterList) else NotImplemented)
+
+        hooks2["peek"] = lambda ev, recv, args, node, env: ((some(recv[0]) if recv else None) if isinstance(recv, IterList) else NotImplemented)
+
+        def h_index_mut(ev, recv, args, node, env):
+            return NotImplemented
+        prev_get = hooks2.get("get_mut")
+        hooks2["len"] = lambda ev, recv, args, node, env: len(recv) if isinstance(recv, list) else NotImplemented
+        hooks2["peekable"] = lambda ev, recv, args, node, env: (recv if isinstance(recv, IterList) else IterList(recv)) if isinstance(recv, list) else NotImplemented
+        try:
+            m2 = new_map()
+            call(m2, "insert", 0, 3, 4)
+            params = [p_["pat"].get("name") for p_ in ext[0].sig["inputs"]]
+            batch = [(0, 1, 9), (2, 1, 9), (5, 0, 9), (2, 2, 9)]
+            Evaluator(hooks=hooks2).run_body(ext[0].body, dict([("self", m2)] + list(zip(params, [list(batch)]))))
+            n += 1
+            got = dict(((x, y), row(m2, x, y)) for x, y in ((0, 3), (0, 1), (2, 1), (5, 0), (2, 2), (0, 0)))
+            want = {(0, 3): [4], (0, 1): [9], (2, 1): [9], (5, 0): [9], (2, 2): [9], (0, 0): None}
+            r.hit("extend", sample={"batch": batch, "rows": {str(k): v for k, v in got.items()}})
+            if got != want:
+                wrong = sorted(str(k) for k in want if got.get(k) != want[k])
+                ctx.report(r, "extend", "after extend(%s) on a map that holds (0,3,4) the rows %s read back as %s: an entry of the batch whose first handle differs from the first entry's (another resource or dataset of the same annotation) is filed in the wrong row or dropped, and the annotation is not found from that target" % (batch, ", ".join(wrong), [got[eval(k)] for k in wrong]), ext[0].file, ext[0].line)
+        except (Unknown, Panic) as e:
+            ctx.report(r, "unevaluated:extend", "Extend for TripleRelationMap could not be evaluated (%s): that a batch is filed row by row is not established" % e, ext[0].file, ext[0].line)
+    ctx.floor(r, n, 4, "TripleRelationMap operations evaluated")
 
 
 def SInt_(v):
